@@ -193,13 +193,16 @@ func (s *Server) serveGated(req *http.Request, actor string, rd ResourceDef, pr 
 	// fault injection
 	injected := -1
 	if fl := s.faults[actor]; len(fl) > 0 {
-		f := &fl[0]
-		if f.Verb == "" || f.Verb == verb {
-			if f.Skip > 0 {
-				f.Skip--
-			} else {
-				injected = f.Code
-				s.faults[actor] = fl[1:]
+		for i := range fl {
+			f := &fl[i]
+			if (f.Verb == "" || f.Verb == verb) && (f.ResKey == "" || f.ResKey == rd.ResKey()) && (f.Name == "" || f.Name == name) {
+				if f.Skip > 0 {
+					f.Skip--
+				} else {
+					injected = f.Code
+					s.faults[actor] = append(append([]Fault{}, fl[:i]...), fl[i+1:]...)
+				}
+				break
 			}
 		}
 	}
@@ -266,7 +269,7 @@ func (s *Server) serveGated(req *http.Request, actor string, rd ResourceDef, pr 
 		return jsonResp(req, code, b), nil
 	}
 	reason := reasonFor(code)
-	if code == 409 && msg == "AlreadyExists" {
+	if code == 409 && (msg == "AlreadyExists" || (verb == "create" && injected == 409)) {
 		reason = "AlreadyExists"
 	}
 	return jsonResp(req, code, statusBody(code, reason, msg)), nil
